@@ -108,7 +108,8 @@ example :
         (fun f => (f.path, f.priority, f.flags))
       = [([98], -5, 0), ([97], 7, 1), ([99], 7, 1)] := by decide
 
-open Sqfs.C17SortTree Sqfs.FsTree in
+open Sqfs.C17SortTree in
+open Sqfs.FsTree hiding FileEnt sortFileList sortFiles in
 /-- **The sort file does not change the tree.**  `fstree_sort_files` on a whole `fstree_t` (`FsTree.Result`): the
 node tree (names, modes, owners, targets, link counts) and the `fs->inodes` array (hence every inode number) are the
 ones it was given, `fs->files` is a permutation of the old list, and the per-file attributes it leaves behind are
@@ -151,7 +152,8 @@ theorem directives_preserve_tree (terminate : Bool) (mt : Matcher) (rawLines : L
 
 
 -- non-vacuity: two files, the second is moved to the front; tree and inode array are carried along
-open Sqfs.C17SortTree Sqfs.FsTree in
+open Sqfs.C17SortTree in
+open Sqfs.FsTree hiding FileEnt sortFileList sortFiles in
 example :
     let R : Result := { tree := default, inodes := [[[98]], [[97]], []], files := [[[97]], [[98]]] }
     (fstreeSortFiles true (fun _ _ _ => false) [[45, 53, 32, 98]] R).toOption.map
